@@ -17,6 +17,10 @@ struct Item {
 }
 
 fn addr(rng: &mut StdRng) -> std::net::SocketAddr {
+    // validators re-announce periodically and move back and forth between few addresses: most announcements repeat an address
+    if rng.gen_bool(0.6) {
+        return std::net::SocketAddr::new(std::net::IpAddr::from([10, 0, 0, rng.gen_range(1..4u8)]), 3054);
+    }
     std::net::SocketAddr::new(std::net::IpAddr::from(rng.gen::<[u8; 4]>()), rng.gen())
 }
 
@@ -132,6 +136,12 @@ pub fn run(args: &Args, rep: &mut Report) {
                 }
                 let data: Vec<Ann> = batch.iter().map(|i| i.ann.clone()).collect();
                 let before = book.current();
+                // a genuine strictly newer announcement that repeats the address the book already holds for that validator
+                for it in &batch {
+                    if it.genuine && before.iter().any(|(k, a)| *k == it.ann.key && a.msg.addr == it.ann.msg.addr && newer(&it.ann.msg, &a.msg)) {
+                        rep.count("newer_announcements_repeating_the_stored_address");
+                    }
+                }
                 let got = book.update(&schedule, &data).await;
                 let want = reference.update(&schedule, &batch);
                 rep.evaluations += 1;
